@@ -25,20 +25,28 @@
 (*                             a module first called inside a subgraph misses the scopes pushed  *)
 (*                             on the sub-builder                                                *)
 (*   realized_sticky           Parameter._realized is never reset: a second build registers none *)
+(*   named_child_keeps_name    _register_child leaves a module that already has a name untouched; *)
+(*                             only a LATER _set_name of the container renames it: an explicitly  *)
+(*                             named module appended to a container that already has its name (or *)
+(*                             to a root Sequential) is pushed under its old name, not its key    *)
 EXTENDS Integers, Sequences, FiniteSets, TLC, Json
 
-CONSTANTS Deviations, MaxObjs, MinObjs, MaxKids, ExplicitNames, ListPolicies, SeqPolicies, SubPolicy
+CONSTANTS Deviations, MaxObjs, MinObjs, MaxKids, ExplicitNames, NamedInContainers, Sharing, ListPolicies, SeqPolicies, SubPolicy
 VARIABLES objs, hist, stage, out
 vars == <<objs, hist, stage, out>>
 
-AllDevs == {"sequential_child_direct", "param_subgraph_scope", "realized_sticky"}
+AllDevs == {"sequential_child_direct", "param_subgraph_scope", "realized_sticky", "named_child_keeps_name"}
 NoDevs == {}
 Dev(d) == d \in Deviations
 NONE == "<none>"
 Attrs == {"a", "b"}
 X0 == 1                               \* the traced function is evaluated at x = 1
 
-Obj(kind, name) == [kind |-> kind, name |-> name, kids |-> <<>>, par |-> 0]
+\* pre: the module already had a name when a container registered it;  donor: a ModuleList whose children were handed
+\* to a Sequential (Sequential(*self.stages)) and that forward() does not iterate itself
+Obj(kind, name) == [kind |-> kind, name |-> name, kids |-> <<>>, par |-> 0, pre |-> FALSE, donor |-> FALSE]
+RECURSIVE Inside(_, _)
+Inside(os, c) == {c} \cup UNION {Inside(os, os[c].kids[j][2]) : j \in 1..Len(os[c].kids)}
 N == Len(objs)
 RECURSIVE Ancestors(_, _)
 Ancestors(os, i) == IF os[i].par = 0 THEN {} ELSE {os[i].par} \cup Ancestors(os, os[i].par)
@@ -55,11 +63,11 @@ SetName(os, i, nm) ==
   LET os1 == [os EXCEPT ![i].name = nm] IN
   IF os[i].kind = "M" THEN os1 ELSE SetKids(os1, os[i].kids, 1, os[i].kind, nm)
 \* _register_child(key, module)
-Register(os, l, key, c) ==
+Register(os, l, key, c, adopt) ==
   LET named == IF os[c].name # NONE THEN os
                ELSE IF os[l].kind = "L" /\ os[l].name # NONE THEN SetName(os, c, os[l].name \o "." \o key)
                ELSE [os EXCEPT ![c].name = key]          \* object.__setattr__(module, "_name", key): no propagation
-  IN [named EXCEPT ![l].kids = Append(@, <<key, c>>), ![c].par = l]
+  IN [named EXCEPT ![l].kids = Append(@, <<key, c>>), ![c].par = IF adopt THEN l ELSE @, ![c].pre = @ \/ os[c].name # NONE]
 
 -----------------------------------------------------------------------------
 (* construction statements *)
@@ -71,7 +79,7 @@ New(kind, nm) ==
   /\ UNCHANGED <<stage, out>>
 Free(c) == c # 1 /\ objs[c].par = 0
 SetAttr(p, attr, c) ==
-  /\ stage = "build" /\ objs[p].kind = "M" /\ Free(c) /\ p # c /\ c \notin Ancestors(objs, p)
+  /\ stage = "build" /\ objs[p].kind = "M" /\ Free(c) /\ p # c /\ Inside(objs, c) \cap (Ancestors(objs, p) \cup {p}) = {}
   /\ \A j \in 1..Len(objs[p].kids) : objs[p].kids[j][1] # attr
   /\ Len(objs[p].kids) < MaxKids
   /\ objs[c].name \in {NONE, attr}          \* an explicit name equals the attribute it is assigned to (DESIGN 2.4)
@@ -80,12 +88,23 @@ SetAttr(p, attr, c) ==
   /\ hist' = Append(hist, <<"setattr", attr, "", p * 100 + c>>)
   /\ UNCHANGED <<stage, out>>
 Append_(l, c) ==
-  /\ stage = "build" /\ objs[l].kind \in {"L", "S"} /\ Free(c) /\ l # c /\ c \notin Ancestors(objs, l)
+  /\ stage = "build" /\ objs[l].kind \in {"L", "S"} /\ Free(c) /\ l # c /\ Inside(objs, c) \cap (Ancestors(objs, l) \cup {l}) = {}
+  /\ ~objs[l].donor
   /\ Len(objs[l].kids) < MaxKids
-  /\ objs[c].name = NONE                    \* modules put into a container are not given explicit names
+  /\ (NamedInContainers \/ objs[c].name = NONE)     \* an explicit name of a container child differs from its positional key
   /\ ~(objs[l].kind = "S" /\ objs[c].kind = "L")      \* Sequential calls its children; a ModuleList is not callable
-  /\ objs' = Register(objs, l, ToString(Len(objs[l].kids)), c)
+  /\ objs' = Register(objs, l, ToString(Len(objs[l].kids)), c, TRUE)
   /\ hist' = Append(hist, <<"append", "", "", l * 100 + c>>)
+  /\ UNCHANGED <<stage, out>>
+\* s = Sequential(*l): the children of a ModuleList (named by it or not yet) are registered in a new Sequential as well
+RECURSIVE RegisterAll(_, _, _, _)
+RegisterAll(os, s, kids, j) == IF j > Len(kids) THEN os ELSE RegisterAll(Register(os, s, ToString(j - 1), kids[j][2], FALSE), s, kids, j + 1)
+Share(l, s) ==
+  /\ Sharing /\ stage = "build" /\ objs[l].kind = "L" /\ objs[s].kind = "S" /\ Free(s) /\ objs[s].kids = <<>>
+  /\ Len(objs[l].kids) > 0 /\ ~objs[l].donor /\ s \notin Inside(objs, l)
+  /\ \A j \in 1..Len(objs[l].kids) : objs[objs[l].kids[j][2]].kind = "M"
+  /\ objs' = [RegisterAll(objs, s, objs[l].kids, 1) EXCEPT ![l].donor = TRUE]
+  /\ hist' = Append(hist, <<"share", "", "", l * 100 + s>>)
   /\ UNCHANGED <<stage, out>>
 
 -----------------------------------------------------------------------------
@@ -112,9 +131,10 @@ PushS(st, nm, dn) == IF st.insub THEN [st EXCEPT !.ci = Append(@, nm), !.cd = Ap
 Chop(q) == SubSeq(q, 1, Len(q) - 1)
 PopS(st) == IF st.insub THEN [st EXCEPT !.ci = Chop(@), !.cd = Chop(@)]
             ELSE [st EXCEPT !.ci = Chop(@), !.cd = Chop(@), !.ri = Chop(@), !.rd = Chop(@)]
+CodeNames == Dev("sequential_child_direct") \/ Dev("named_child_keeps_name")     \* push module._name as the code has it
 ImplStack(st) == IF Dev("param_subgraph_scope")
-                 THEN (IF Dev("sequential_child_direct") THEN st.ri ELSE st.rd)
-                 ELSE (IF Dev("sequential_child_direct") THEN st.ci ELSE st.cd)
+                 THEN (IF CodeNames THEN st.ri ELSE st.rd)
+                 ELSE (IF CodeNames THEN st.ci ELSE st.cd)
 Realize(st, i) ==         \* Parameter._realize, once per parameter
   IF i \in st.realized THEN st
   ELSE [st EXCEPT !.realized = @ \cup {i},
@@ -123,8 +143,10 @@ Realize(st, i) ==         \* Parameter._realize, once per parameter
 Nm(i) == IF objs[i].name = NONE THEN "" ELSE objs[i].name
 
 ListOrder(n, lp) == CASE lp = "rev" -> [j \in 1..n |-> n + 1 - j] [] OTHER -> [j \in 1..n |-> j]   \* iter / slices / index: same order
-RECURSIVE Call(_, _, _, _), CallKids(_, _, _, _), IterList(_, _, _, _), CallSeqKids(_, _, _, _, _)
-\* pol = [lp, sp, sub]; dname: the name the design pushes for this call
+RECURSIVE Call(_, _, _, _), CallKids(_, _, _, _), IterList(_, _, _, _, _), CallSeqKids(_, _, _, _, _, _)
+QKey(pre, key) == IF pre = "" THEN key ELSE pre \o "." \o key
+\* pol = [lp, sp, sub]; dname: the name the DESIGN pushes for this call (a container child: its positional key, qualified
+\* like a ModuleList qualifies it), Nm(i): the name the code pushes (module._name)
 Call(i, dname, st, pol) ==
   LET s1 == PushS(st, Nm(i), dname)
       s2 == IF objs[i].kind = "M" THEN [Realize(s1, i) EXCEPT !.acc = 2 * @ + i, !.uses = Append(@, i)] ELSE s1
@@ -133,30 +155,28 @@ Call(i, dname, st, pol) ==
                   THEN LET inner == CallKids(i, 1, [s2 EXCEPT !.insub = TRUE], pol)       \* children traced by a sub-builder
                        IN [inner EXCEPT !.insub = s2.insub, !.ci = s2.ci, !.cd = s2.cd]
                   ELSE CallKids(i, 1, s2, pol))
-            ELSE CallSeqKids(i, 1, s2, pol, FALSE)                                        \* Sequential.forward
+            ELSE CallSeqKids(i, 1, s2, pol, FALSE, "")                                    \* Sequential.forward
   IN PopS(s3)
+\* one child c reached under the design name dn
+Visit(c, dn, st, pol) ==
+  CASE objs[c].kind = "M" -> Call(c, dn, st, pol)
+    [] objs[c].kind = "L" -> IF objs[c].donor THEN st ELSE IterList(c, 1, dn, st, pol)
+    [] objs[c].kind = "S" -> IF pol.sp = "call" THEN Call(c, dn, st, pol) ELSE CallSeqKids(c, 1, st, pol, TRUE, dn)
 \* a Module's forward: children in registration order
 CallKids(i, j, st, pol) ==
   IF j > Len(objs[i].kids) THEN st
-  ELSE LET c == objs[i].kids[j][2]
-           s1 == CASE objs[c].kind = "M" -> Call(c, Nm(c), st, pol)
-                   [] objs[c].kind = "L" -> IterList(c, 1, st, pol)
-                   [] objs[c].kind = "S" -> IF pol.sp = "call" THEN Call(c, Nm(c), st, pol) ELSE CallSeqKids(c, 1, st, pol, TRUE)
-       IN CallKids(i, j + 1, s1, pol)
+  ELSE CallKids(i, j + 1, Visit(objs[i].kids[j][2], objs[i].kids[j][1], st, pol), pol)
 \* for m in self.layers[...]: elements keep the names they were given (slices register them under new keys only)
-IterList(l, j, st, pol) ==
+IterList(l, j, dpre, st, pol) ==
   IF j > Len(objs[l].kids) THEN st
-  ELSE LET c == objs[l].kids[ListOrder(Len(objs[l].kids), pol.lp)[j]][2]
-           s1 == CASE objs[c].kind = "M" -> Call(c, Nm(c), st, pol)
-                   [] objs[c].kind = "L" -> IterList(c, 1, st, pol)
-                   [] objs[c].kind = "S" -> IF pol.sp = "call" THEN Call(c, Nm(c), st, pol) ELSE CallSeqKids(c, 1, st, pol, TRUE)
-       IN IterList(l, j + 1, s1, pol)
-\* children of a Sequential: from Sequential.forward (direct = FALSE) or iterated by the parent (direct = TRUE)
-CallSeqKids(s, j, st, pol, direct) ==
+  ELSE LET kd == objs[l].kids[ListOrder(Len(objs[l].kids), pol.lp)[j]]
+       IN IterList(l, j + 1, dpre, Visit(kd[2], QKey(dpre, kd[1]), st, pol), pol)
+\* children of a Sequential: from Sequential.forward (direct = FALSE) or iterated by the parent (direct = TRUE, dpre = its name)
+CallSeqKids(s, j, st, pol, direct, dpre) ==
   IF j > Len(objs[s].kids) THEN st
   ELSE LET c == objs[s].kids[j][2]
-           dn == IF direct THEN Nm(s) \o "." \o objs[s].kids[j][1] ELSE Nm(c)
-       IN CallSeqKids(s, j + 1, Call(c, dn, st, pol), pol, direct)
+           dn == IF direct THEN QKey(dpre, objs[s].kids[j][1]) ELSE objs[s].kids[j][1]
+       IN CallSeqKids(s, j + 1, Call(c, dn, st, pol), pol, direct, dpre)
 St0 == [ri |-> <<>>, ci |-> <<>>, rd |-> <<>>, cd |-> <<>>, insub |-> FALSE, inits |-> <<>>, dinits |-> <<>>, realized |-> {}, acc |-> X0, uses |-> <<>>]
 
 \* what the built graph computes: a use refers to its parameter BY NAME; a later registration under the same name
@@ -180,14 +200,16 @@ SeqNames(s) == [j \in 1..Len(s) |-> s[j].k]
 NoDupS(s) == Cardinality({s[j] : j \in 1..Len(s)}) = Len(s)
 Result(pol) ==
   LET t == Call(1, Nm(1), St0, pol)
+      differ == SeqNames(t.inits) # SeqNames(t.dinits)
       prefix == IF objs[1].name = NONE THEN "" ELSE objs[1].name \o "."
       keys == Keys(1, prefix)
-      why == (IF SeqNames(t.inits) # SeqNames(t.dinits)
+      why == (IF differ
               THEN (IF pol.sp = "direct" /\ Dev("sequential_child_direct") THEN {"sequential_child_direct"} ELSE {})
                    \cup (IF pol.sub # 0 /\ Dev("param_subgraph_scope") THEN {"param_subgraph_scope"} ELSE {})
+                   \cup (IF (\E i \in 1..N : objs[i].pre) /\ Dev("named_child_keeps_name") THEN {"named_child_keeps_name"} ELSE {})
               ELSE {})
   IN [hist |-> hist, pol |-> pol, rootname |-> objs[1].name, rootkind |-> objs[1].kind, depth |-> Depth,
-      objs |-> [i \in 1..N |-> [kind |-> objs[i].kind, name |-> objs[i].name, keys |-> [j \in 1..Len(objs[i].kids) |-> objs[i].kids[j][1]],
+      objs |-> [i \in 1..N |-> [kind |-> objs[i].kind, name |-> objs[i].name, donor |-> objs[i].donor, pre |-> objs[i].pre, keys |-> [j \in 1..Len(objs[i].kids) |-> objs[i].kids[j][1]],
                                  kids |-> [j \in 1..Len(objs[i].kids) |-> objs[i].kids[j][2]]]],
       keys |-> keys, inits |-> t.inits, dinits |-> t.dinits,
       value |-> Fold(t.uses, t.inits, X0), dvalue |-> t.acc,
@@ -205,6 +227,7 @@ Init == /\ objs \in {<<Obj("M", "root")>>, <<Obj("M", NONE)>>, <<Obj("S", NONE)>
 Next == \/ \E k \in {"M", "L", "S"} : \E nm \in {NONE} \cup ExplicitNames : New(k, nm)
         \/ \E p \in 1..N : \E c \in 2..N : \E a \in Attrs : SetAttr(p, a, c)
         \/ \E l \in 1..N : \E c \in 2..N : Append_(l, c)
+        \/ \E l \in 2..N : \E c \in 2..N : Share(l, c)
         \/ \E pol \in Policies : Finish(pol)
 Spec == Init /\ [][Next]_vars
 
@@ -212,14 +235,17 @@ Spec == Init /\ [][Next]_vars
 Done == stage = "done"
 SetOf(s) == {s[j] : j \in 1..Len(s)}
 \* the property on the DESIGN (no deviations): names = root prefix + state_dict keys, each once, own tensors used
-InitOK(names, value) == /\ NoDupS(names)
-                        /\ SetOf(names) = SetOf(SeqNames(out.keys))
+\* (a module handed to a second container has two keys: its parameter is registered once, under one of them)
+InitOK(inits, value) == /\ NoDupS(SeqNames(inits))
+                        /\ {inits[j].p : j \in 1..Len(inits)} = {out.keys[m].p : m \in 1..Len(out.keys)}
+                        /\ Cardinality({inits[j].p : j \in 1..Len(inits)}) = Len(inits)
+                        /\ \A j \in 1..Len(inits) : \E m \in 1..Len(out.keys) : out.keys[m] = inits[j]
                         /\ value = out.dvalue
-DesignOK == Done => InitOK(SeqNames(out.dinits), out.dvalue) /\ out.balanced
+DesignOK == Done => InitOK(out.dinits, out.dvalue) /\ out.balanced
 \* parameters keep the name/tensor pairing of state_dict in the design
 DesignPairs == Done => \A j \in 1..Len(out.dinits) : \E m \in 1..Len(out.keys) : out.keys[m] = out.dinits[j]
 \* the implementation model departs only where a deviation says so
-DeviationsExplain == Done => (~InitOK(SeqNames(out.inits), out.value) => out.why # {})
+DeviationsExplain == Done => (~InitOK(out.inits, out.value) => out.why # {})
 \* with no deviation the implementation model IS the design
 ImplIsDesign == Done => out.inits = out.dinits /\ out.value = out.dvalue /\ out.second = SeqNames(out.dinits)
 Report == Done => PrintT(<<"TREE", ToJson(out)>>)
